@@ -404,7 +404,7 @@ func forwardCase(r *vk.Run, e *entry, m *method, rng *vk.Rand) {
 		case strings.ContainsAny(n, " /é"):
 			nameClass = "special"
 		}
-		r.Distinct(fmt.Sprintf("fwd:%s.%s/%s/%s/%s/%s", e.ID(), m.Name, mode, s.class, nameClass, vk.JSON(sent)))
+		r.Distinct(fmt.Sprintf("fwd:%s.%s/%s/%s/%s/%s/h%v/t%v/n%d", e.ID(), m.Name, mode, s.class, nameClass, populated(sent), len(s.header) > 0, len(s.trailer) > 0, len(s.msgs)))
 		detail := func(what string) string {
 			var cs []string
 			for _, c := range calls {
@@ -589,6 +589,20 @@ func forwardCase(r *vk.Run, e *entry, m *method, rng *vk.Rand) {
 	checkForwardChanges(r, e, w)
 }
 
+// populated names the set fields of m (top level) and whether it carries unknown fields: the shape of a request.
+func populated(m proto.Message) string {
+	var fs []string
+	m.ProtoReflect().Range(func(fd protoreflect.FieldDescriptor, _ protoreflect.Value) bool {
+		fs = append(fs, string(fd.Name()))
+		return true
+	})
+	sort.Strings(fs)
+	if len(m.ProtoReflect().GetUnknown()) > 0 {
+		fs = append(fs, "+unknown")
+	}
+	return strings.Join(fs, ",")
+}
+
 func firstErr(es ...error) error {
 	for _, e := range es {
 		if e != nil {
@@ -620,7 +634,7 @@ func checkForwardChanges(r *vk.Run, e *entry, w *world) {
 	cur := map[string]any{}
 	for i, c := range w.changes {
 		if c.Old != cur[c.Name] {
-			r.Violation("C12/registry/onchange/chain/"+e.ID(), fmt.Sprintf("change %d of %q has Old=%v but the previous changes left %v; history %v", i, c.Name, connOf(w, c.Old), connOf(w, cur[c.Name]), w.hist), nil)
+			r.Violation("C12/registry/onchange/chain/forward-scenario", fmt.Sprintf("router "+e.ID()+": change %d of %q has Old=%v but the previous changes left %v; history %v", i, c.Name, connOf(w, c.Old), connOf(w, cur[c.Name]), w.hist), nil)
 			return
 		}
 		if c.New == nil {
@@ -633,17 +647,17 @@ func checkForwardChanges(r *vk.Run, e *entry, w *world) {
 			isFactory = true
 		}
 		if c.Auto != isFactory {
-			r.Violation("C12/registry/onchange/auto-flag/"+e.ID(), fmt.Sprintf("change %d of %q has Auto=%v for client %v", i, c.Name, c.Auto, connOf(w, c.New)), nil)
+			r.Violation("C12/registry/onchange/auto-flag/forward-scenario", fmt.Sprintf("router "+e.ID()+": change %d of %q has Auto=%v for client %v", i, c.Name, c.Auto, connOf(w, c.New)), nil)
 		}
 	}
 	r.Count("forward-change-logs-checked", 1)
 	if len(cur) != len(w.reg) {
-		r.Violation("C12/registry/onchange/final/"+e.ID(), fmt.Sprintf("change log ends with %d names, model has %d; history %v", len(cur), len(w.reg), w.hist), nil)
+		r.Violation("C12/registry/onchange/final/forward-scenario", fmt.Sprintf("router "+e.ID()+": change log ends with %d names, model has %d; history %v", len(cur), len(w.reg), w.hist), nil)
 		return
 	}
 	for n, c := range w.reg {
 		if cur[n] != w.clientOf[c] {
-			r.Violation("C12/registry/onchange/final/"+e.ID(), fmt.Sprintf("change log ends with %v under %q, model has %s; history %v", connOf(w, cur[n]), n, c.label, w.hist), nil)
+			r.Violation("C12/registry/onchange/final/forward-scenario", fmt.Sprintf("router "+e.ID()+": change log ends with %v under %q, model has %s; history %v", connOf(w, cur[n]), n, c.label, w.hist), nil)
 			return
 		}
 	}
